@@ -286,21 +286,27 @@ func (q *queryStmtParser) parseDuration(ctx grammar.IDurationLitContext) int64 {
 	if !ok {
 		return result
 	}
+	var unitVal int64
 	switch {
 	case unit.T_SECOND() != nil:
-		result = duration * commontimeutil.OneSecond
+		unitVal = commontimeutil.OneSecond
 	case unit.T_MINUTE() != nil:
-		result = duration * commontimeutil.OneMinute
+		unitVal = commontimeutil.OneMinute
 	case unit.T_HOUR() != nil:
-		result = duration * commontimeutil.OneHour
+		unitVal = commontimeutil.OneHour
 	case unit.T_DAY() != nil:
-		result = duration * commontimeutil.OneDay
+		unitVal = commontimeutil.OneDay
 	case unit.T_WEEK() != nil:
-		result = duration * commontimeutil.OneWeek
+		unitVal = commontimeutil.OneWeek
 	case unit.T_MONTH() != nil:
-		result = duration * commontimeutil.OneMonth
+		unitVal = commontimeutil.OneMonth
 	case unit.T_YEAR() != nil:
-		result = duration * commontimeutil.OneYear
+		unitVal = commontimeutil.OneYear
+	}
+	result = duration * unitVal
+	if unitVal != 0 && result/unitVal != duration {
+		q.err = fmt.Errorf("duration %s out of range", durationCtx.GetText())
+		return 0
 	}
 	return result
 }
